@@ -4,6 +4,7 @@ C14 line-protocol driver:  `lake env lean --run Sc3Verif/C14/Driver.lean < ops`
   world (<latency> (desc <name> <keepgate> (<control> ...)) ...)
   event <t> (<(key value)> ...)         play one note event at logical time t
   pat <t> <epat>                        pattern.play() at logical time t
+  restart <t> <a> <b> <epat>            play at t, stop() after a, play(reset=True) after another b
   mono <t> <instrument> <articulate 0|1> <binds>   Pmono(instrument, binds, articulate).play()
   replay <t> (<(key value)> ...) (<dt> ...)   one event object played at t, t+dt1, ...
 Output: one line per OSC message `time cmd args…`, then `END <time reached> <died>`.
@@ -107,6 +108,17 @@ partial def loop (h out : IO.FS.Stream) (w : World) : IO Unit := do
       out.putStrLn s!"END {fmtRat t} {if raised then 1 else 0}"
       loop h out w'
     | _, _ => out.putStrLn "parse-error"; loop h out w
+  else if l.startsWith "restart " then
+    match (l.drop 8).toString.splitOn " " with
+    | t :: a :: b :: restl =>
+      match parseRat t, parseRat a, parseRat b, (readSx (" ".intercalate restl)).bind sxEPat with
+      | some t, some a, some b, some p =>
+        let (ms, w', t', died) := playRestart w t a b p
+        for m in ms do out.putStrLn (fmtMsg m)
+        out.putStrLn s!"END {fmtRat t'} {if died then 1 else 0}"
+        loop h out w'
+      | _, _, _, _ => out.putStrLn "parse-error"; loop h out w
+    | _ => out.putStrLn "parse-error"; loop h out w
   else if l.startsWith "mono " then
     match (l.drop 5).toString.splitOn " " with
     | t :: inst :: artic :: restl =>
